@@ -1020,13 +1020,50 @@ func genGposLookup(t *rapid.T, n int, subsetOnly bool) *gtab.LookupTable {
 		return &gtab.LookupTable{Meta: &gtab.LookupMetaInfo{LookupType: 1},
 			Subtables: []gtab.Subtable{&gtab.Gpos1_1{Cov: cov, Adjust: genValueRecord(t)}}}
 	}
-	sub := gtab.Gpos2_1{}
-	np := rapid.IntRange(1, 6).Draw(t, "nPairs")
-	for i := 0; i < np; i++ {
-		p := glyph.Pair{Left: glyph.ID(gidGen(n).Draw(t, "pl")), Right: glyph.ID(gidGen(n).Draw(t, "pr"))}
-		sub[p] = &gtab.PairAdjust{First: &gtab.GposValueRecord{XAdvance: funit.Int16(rapid.IntRange(-300, 300).Draw(t, "kern"))}}
+	// one to three pair subtables; later subtables repeat pairs of earlier
+	// ones (the first subtable listing a pair decides), and a pair may carry
+	// an all-zero adjustment, which is how a font exempts one pair from the
+	// kerning a later subtable gives it
+	lt := &gtab.LookupTable{Meta: &gtab.LookupMetaInfo{LookupType: 2}}
+	var earlier []glyph.Pair
+	for k := rapid.SampledFrom([]int{1, 1, 2, 3}).Draw(t, "nPairSubtables"); k > 0; k-- {
+		sub := gtab.Gpos2_1{}
+		np := rapid.IntRange(1, 6).Draw(t, "nPairs")
+		nonZero := false
+		for i := 0; i < np; i++ {
+			p := glyph.Pair{Left: glyph.ID(gidGen(n).Draw(t, "pl")), Right: glyph.ID(gidGen(n).Draw(t, "pr"))}
+			if len(earlier) > 0 && rapid.IntRange(0, 2).Draw(t, "repeatPair") == 0 {
+				p = rapid.SampledFrom(earlier).Draw(t, "earlierPair")
+			}
+			v := rapid.IntRange(-300, 300).Draw(t, "kern")
+			if rapid.IntRange(0, 5).Draw(t, "zeroPair") == 0 && (nonZero || i < np-1) {
+				v = 0
+			}
+			if i == np-1 && !nonZero && v == 0 {
+				v = 10 // the value format of the subtable has at least one field
+			}
+			nonZero = nonZero || v != 0
+			sub[p] = &gtab.PairAdjust{First: &gtab.GposValueRecord{XAdvance: funit.Int16(v)}}
+			earlier = append(earlier, p)
+		}
+		hasNonZero := false
+		for _, a := range sub {
+			hasNonZero = hasNonZero || a.First.XAdvance != 0
+		}
+		if !hasNonZero {
+			// (a repeated key replaced the only non-zero pair) deterministic choice: the smallest pair
+			var first *glyph.Pair
+			for p := range sub {
+				p := p
+				if first == nil || p.Left < first.Left || (p.Left == first.Left && p.Right < first.Right) {
+					first = &p
+				}
+			}
+			sub[*first].First.XAdvance = 10
+		}
+		lt.Subtables = append(lt.Subtables, sub)
 	}
-	return &gtab.LookupTable{Meta: &gtab.LookupMetaInfo{LookupType: 2}, Subtables: []gtab.Subtable{sub}}
+	return lt
 }
 
 func genInfo(t *rapid.T, n int, gsub, subsetOnly bool) *gtab.Info {
